@@ -572,11 +572,27 @@ carquet_status_t parquet_parse_file_metadata(
 
     thrift_type_t type;
     int16_t field_id;
+    unsigned required_seen = 0;  /* version, schema, num_rows, row_groups */
 
     while (thrift_read_field_begin(&dec, &type, &field_id)) {
         if (thrift_decoder_has_error(&dec)) {
             CARQUET_SET_ERROR(error, dec.status, "%s", dec.error_message);
             return dec.status;
+        }
+
+        /* The four required fields must arrive with their declared wire type:
+         * arbitrary bytes (a page body that happens to end in a footer length
+         * and "PAR1") must not pass for a footer */
+        if (field_id >= 1 && field_id <= 4) {
+            static const thrift_type_t required_type[4] = {
+                THRIFT_TYPE_I32, THRIFT_TYPE_LIST, THRIFT_TYPE_I64, THRIFT_TYPE_LIST
+            };
+            if (type != required_type[field_id - 1]) {
+                CARQUET_SET_ERROR(error, CARQUET_ERROR_INVALID_METADATA,
+                    "File metadata field %d has the wrong type", (int)field_id);
+                return CARQUET_ERROR_INVALID_METADATA;
+            }
+            required_seen |= 1u << (field_id - 1);
         }
 
         switch (field_id) {
@@ -654,6 +670,17 @@ carquet_status_t parquet_parse_file_metadata(
     if (thrift_decoder_has_error(&dec)) {
         CARQUET_SET_ERROR(error, dec.status, "%s", dec.error_message);
         return dec.status;
+    }
+
+    /* version, schema, num_rows and row_groups are required fields of
+     * FileMetaData, the schema holds at least its root, and the struct ends
+     * exactly where the footer length says: bytes that decode to anything
+     * less (a lone STOP byte, say) are not a footer */
+    if (required_seen != 0xFu || metadata->num_schema_elements < 1 ||
+        thrift_decoder_remaining(&dec) != 0) {
+        CARQUET_SET_ERROR(error, CARQUET_ERROR_INVALID_METADATA,
+            "File metadata lacks required fields or does not fill the footer");
+        return CARQUET_ERROR_INVALID_METADATA;
     }
 
     return CARQUET_OK;
